@@ -269,6 +269,7 @@ type state struct {
 	deathN    int
 	spawns    int
 	hangs     map[string]int
+	txsizePos map[string]int
 	stopFam   map[string]bool
 	dropped   int
 	retired   int
@@ -314,6 +315,9 @@ func (s *state) merge(fam string, r *batchResult) {
 	}
 	for k, v := range r.Shapes {
 		s.shapes[fam+"|"+k] += v
+	}
+	for k, v := range r.TxSizePos {
+		s.txsizePos[k] += v
 	}
 	for k, v := range r.Viol {
 		a := s.viol[k]
@@ -652,7 +656,7 @@ func main() {
 	}
 	blocks := buildBlocks(thor)
 	s := &state{perFam: map[string]*famStat{}, classes: map[string]int{}, shapes: map[string]int{}, viol: map[string]*violAgg{},
-		deaths: map[string][]deathCase{}, samples: &ev.Samples{N: 12}, hangs: map[string]int{}, stopFam: map[string]bool{}}
+		deaths: map[string][]deathCase{}, samples: &ev.Samples{N: 12}, hangs: map[string]int{}, stopFam: map[string]bool{}, txsizePos: map[string]int{}}
 	s.cond = sync.NewCond(&s.mu)
 
 	only := os.Getenv("C09_ONLY")
@@ -804,32 +808,33 @@ func main() {
 	}
 	sort.Strings(stopped)
 	r.Finish(map[string]interface{}{
-		"exhaustive":                             len(stopped) == 0,
-		"capacity_presentations":                 []string{"cap == len", "b[:len] of a longer array continuing with the rest of the valid encoding / the next transaction", "... continuing with 16 x ff", "... continuing with 16 x 00"},
-		"watchdog_seconds":                       []int{int(watchdog.Seconds()), int(watchdogConfirm.Seconds())},
-		"families_cut_short_after_three_hangs":   stopped,
-		"jobs_dropped_after_hangs":               s.dropped,
-		"concurrent_part":                        concurrent,
-		"evaluations":                            s.evals,
-		"distinct_nontrivial":                    len(s.shapes),
-		"rule":                                   "a case is non-trivial when at least one of reference / gocoin decoded a complete object from it; distinct = number of distinct (family, reference outcome, gocoin outcome, decoded shape = inputs/outputs/witness or txs/witness/hash-mode) tuples observed; worker deaths count as their own outcome",
-		"samples":                                s.samples.L,
-		"per_family":                             pf,
-		"outcome_classes":                        s.classes,
-		"distinct_outcomes":                      len(s.classes),
-		"violation_case_count":                   vc,
-		"worker_deaths":                          deathCounts,
-		"worker_deaths_total":                    s.deathN,
-		"worker_processes_started":               s.spawns,
-		"workers_retired_after_large_allocation": s.retired,
-		"tx_bases":                               len(bases),
-		"block_bases":                            len(blocks),
-		"jobs":                                   totalJobs,
-		"short_string_max_len":                   shortMax,
-		"max_inputs_outputs_per_base":            map[bool]int{false: 2, true: 3}[thor],
-		"max_txs_per_block_base":                 map[bool]int{false: 2, true: 3}[thor],
-		"reference_vectors_validated":            nvec,
-		"alloc_bound":                            "TotalAlloc delta of the decode <= 64*len + 64 KiB",
+		"exhaustive": len(stopped) == 0,
+		"txsize_positive_although_reference_refuses_not_judged": s.txsizePos,
+		"capacity_presentations":                                []string{"cap == len", "b[:len] of a longer array continuing with the rest of the valid encoding / the next transaction", "... continuing with 16 x ff", "... continuing with 16 x 00"},
+		"watchdog_seconds":                                      []int{int(watchdog.Seconds()), int(watchdogConfirm.Seconds())},
+		"families_cut_short_after_three_hangs":                  stopped,
+		"jobs_dropped_after_hangs":                              s.dropped,
+		"concurrent_part":                                       concurrent,
+		"evaluations":                                           s.evals,
+		"distinct_nontrivial":                                   len(s.shapes),
+		"rule":                                                  "a case is non-trivial when at least one of reference / gocoin decoded a complete object from it; distinct = number of distinct (family, reference outcome, gocoin outcome, decoded shape = inputs/outputs/witness or txs/witness/hash-mode) tuples observed; worker deaths count as their own outcome",
+		"samples":                                               s.samples.L,
+		"per_family":                                            pf,
+		"outcome_classes":                                       s.classes,
+		"distinct_outcomes":                                     len(s.classes),
+		"violation_case_count":                                  vc,
+		"worker_deaths":                                         deathCounts,
+		"worker_deaths_total":                                   s.deathN,
+		"worker_processes_started":                              s.spawns,
+		"workers_retired_after_large_allocation":                s.retired,
+		"tx_bases":                                              len(bases),
+		"block_bases":                                           len(blocks),
+		"jobs":                                                  totalJobs,
+		"short_string_max_len":                                  shortMax,
+		"max_inputs_outputs_per_base":                           map[bool]int{false: 2, true: 3}[thor],
+		"max_txs_per_block_base":                                map[bool]int{false: 2, true: 3}[thor],
+		"reference_vectors_validated":                           nvec,
+		"alloc_bound":                                           "TotalAlloc delta of the decode <= 64*len + 64 KiB",
 		"max_alloc_fraction_of_bound_on_accepted_decodes": s.maxFrac,
 		"max_alloc_fraction_case":                         s.maxFracHx,
 		"ulimit_v_kb":                                     vlimitKB,
